@@ -58,17 +58,31 @@ func C09(c *run.Ctx) int {
 		var sb strings.Builder
 		elems := []string{"u32", "i32", "f32", "atomic<u32>", "atomic<i32>", "vec2<f32>", "vec4<u32>", "vec3<f32>"}
 		// a random prefix of struct / alias declarations moves the type handles around
-		for k, np := 0, r.Intn(10); k < np; k++ {
+		for k, np := 0, r.Intn(10)+(i%2)*r.Range(4, 30); k < np; k++ {
 			fmt.Fprintf(&sb, "struct P%d { a: %s, b: array<%s, %d>, }\n", k, []string{"u32", "f32", "vec2<i32>", "mat2x2<f32>"}[r.Intn(4)], []string{"u32", "f32"}[r.Intn(2)], r.Range(2, 40))
 		}
 		sb.WriteString("@group(0) @binding(0) var<storage, read_write> o: array<u32, 64>;\n")
 		nv := r.Range(6, 16)
+		dense := i%2 == 1 // dense variant: every one-digit length over the atomics, many two-digit lengths over the scalars
+		if dense {
+			nv = 9 + 9 + 30
+		}
 		var body []string
 		for k := 0; k < nv; k++ {
 			el := elems[r.Intn(len(elems))]
 			n := r.Range(1, 40)
 			if r.Chance(1, 3) {
 				n = []int{2, 3, 4, 11, 12, 13, 14, 21, 22, 23, 31, 32, 34, 41, 42}[r.Intn(15)]
+			}
+			if dense {
+				switch {
+				case k < 9:
+					el, n = "atomic<u32>", k+1
+				case k < 18:
+					el, n = "atomic<i32>", k-8
+				default:
+					el, n = []string{"u32", "i32", "f32"}[r.Intn(3)], r.Range(10, 99)
+				}
 			}
 			space := "workgroup"
 			if !strings.HasPrefix(el, "atomic") && r.Bool() {
